@@ -21,11 +21,12 @@ extern "C" int vp_mutex_prelock(d1::mutex* m) { return m->try_lock(); }
 extern "C" int vp_mutex_flag(d1::mutex* m) { return m->my_flag.load(std::memory_order_relaxed); }
 #if VP_RW
 // ---- tbb::rw_mutex. role 0 reader, 1 writer, 2 reader then upgrade, 3 writer then downgrade,
-//      4 = starts as the writer (pre-state), releases ; 5 = starts as a reader (pre-state), releases
+//      4 = starts as the writer (pre-state), releases ; 5 = starts as a reader (pre-state), releases ; 6 = starts as the writer, downgrades, releases
 extern "C" void vp_upgraded(int tid, int atomic_upgrade);
 extern "C" void vp_thr_rw(d1::rw_mutex* m, int tid, int role) {
   if (role == 4) { vp_leave(tid, 1); m->unlock(); return; }
   if (role == 5) { vp_leave(tid, 0); m->unlock_shared(); return; }
+  if (role == 6) { vp_leave(tid, 3); m->downgrade(); vp_leave(tid, 0); m->unlock_shared(); return; }   // starts as the writer: downgrade, then release
   if (role == 0) { m->lock_shared(); vp_enter(tid, 0); vp_leave(tid, 0); m->unlock_shared(); return; }
   if (role == 1) { m->lock(); vp_enter(tid, 1); vp_leave(tid, 1); m->unlock(); return; }
   if (role == 2) {
